@@ -136,9 +136,18 @@ def run(tier: str) -> Check:
     for r in RENDER:
         t, _ = run_entry(check, repo, r, set(), "ESCAPE-RENDER")
         check.count("escaping_sites_examined", t)
-    from .c12 import ci_string_facts
+    # premise of p <= len(input): a `^"..."` literal advances by exactly what it matched (sa/termsem.py, both siblings)
+    from ..termsem import check_terminals
 
-    ci_string_facts(check, repo)  # premise of p <= len(input): the interpreter advances by len(value) for ^"..." literals
+    n_t, bad_t = check_terminals(repo, "C13 CASE", False)
+    check.count("terminal_model_points", n_t)
+    ci_bad = [(con, cat, msg) for con, cat, msg in bad_t if con.endswith("CIString") and "wrong position" in cat]
+    check.oblige("CASE", "src/pest/grammar/expressions/terminals.py::CIString", "a case-insensitive literal advances by the length of what it matched", True)
+    seen_c: set = set()
+    for con, cat, msg in ci_bad:
+        if cat not in seen_c:
+            seen_c.add(cat)
+            check.oblige("CASE", con, cat, False, finding=Finding("CASE", con, cat, f"CIString: {cat}: e.g. {msg}", {"witness": msg}))
     from ..lineoff import apply as line_offsets
 
     line_offsets(check, repo, "LINE-OFFSET", ["src/pest/exceptions.py"], 1)
